@@ -1,6 +1,9 @@
 """C13: rate change scales time uniformly, composes, and survives a write.
-Charts/mapsets of all five games are rate-changed; Coq compares the rated lists with the stacker-based model
-(corr) and with uniform scaling (spec); file-level time fields and write->read survival are checked too."""
+Charts/mapsets of all five games are rate-changed; Coq compares the rated lists AND the file-level fields (osu preview point /
+sample events / other attributes, StepMania offset / sample window / other attributes, every chart of a mapset) with the model
+of Map/Rate.v + Map/RateFile.v (corr) and with uniform scaling (spec), and checks that the original is untouched; the strict
+reading of osu's preview marker is a separate term (CPreview).  Write survival: theorems in Props/C13.v; per run through
+reamber's readers (py_oracle)."""
 from fractions import Fraction as Fr
 
 from .. import coqfmt as F
@@ -14,24 +17,40 @@ RUNNER_TARGETS = ["Corr/RunC13.vo"]
 PROOF_TARGETS = ["Props/C13.vo"]
 PROPS_FILE = "Props/C13.v"
 PROPS_MODULE = "Props.C13"
-RULE = ("random charts of the five games (empty hold/SV/sample lists included, ties, non-default labels) and StepMania/O2Jam/base mapsets; "
-        "rates from the exact family {1/4,1/2,1,2,4,8} (equality demanded) and the rounded family {1.1,0.75,1.5,0.9,1.25} (1e-9 relative); "
-        "kinds: rate, rate(1), rate(a).rate(b) vs rate(a*b), file-level fields (osu preview_time / sample events, SM offset / sample window), "
-        "write->read of the rated chart (osu, Quaver; StepMania header); non-trivial = chart has >= 2 rows in some list and rate != 1")
+RULE = ("random charts of the five games (empty hold/SV/sample lists included, ties, non-default labels, int-typed columns) and StepMania/O2Jam/base "
+        "mapsets (1-3 charts; StepMania offset None / 0 / negative / fractional); rates from the exact family {1/4,1/2,1,2,4,8} (equality demanded) "
+        "and the rounded family {1.1,0.75,1.5,0.9,1.25} (1e-9 relative); kinds: rate, rate(1), rate(a).rate(b) vs rate(a*b), osu charts with their "
+        "file-level fields (preview point incl. the marker -1, 0-3 sample events, all other attributes) before / after on the original and on the copy, "
+        "StepMania mapsets with offset / sample window / other attributes likewise, write->read of the rated chart (osu, Quaver); "
+        "non-trivial = chart has >= 2 rows in some list and rate != 1")
 ASSUMPTIONS = [
     "exact stream: dyadic values and power-of-two rates, where binary64 division/multiplication is exact; rounded stream: tolerance 1e-9 relative",
-    "write->read survival is judged through reamber's own readers here (the codecs are tied to reference semantics by C01/C03/C05/C06)",
-    "osu preview_time = -1 is the format's 'unset' marker: generated charts use preview_time >= 0 except for the known finding",
+    "per run, write->read survival is additionally judged through reamber's own readers (py_oracle); the theorems C13_<game>_rate_survives_write are "
+    "about the format models of C01/C03/C05/C06 and their reference semantics",
+    "osu preview_time = -1 is the format's 'no preview point' marker (kept by OsuMap.rate since 09d92a7): generated previews are -1 or >= 0; the strict "
+    "reading (marker kept, a preview point p at p/r) is a separate check (CPreview); a negative preview time p = -r, which lands on the marker, is "
+    "outside the generated domain (C13_osu_preview_strict_refuted / C13_osu_file_rate_compose_refuted state it)",
+    "file-level attributes other than the time fields are compared as opaque interned cells (dataclass fields in declaration order)",
 ]
 TRUSTED = ["harness/frames.py, harness/maps.py"]
 MANIFEST = dict(
-    text="Coq proof that Map.rate - modelled as the three edits through the stacker (offset /= r, bpm *= r, length /= r) - is uniform scaling "
-         "for every chart and every r (rate_lists = rate_spec, by composing the C12 stacker theorems), keeps columns/row counts/other cells, "
-         "is the identity at 1 and composes (rate b . rate a = rate a*b); tied to Map.rate/MapSet.rate/OsuMap.rate/SMMapSet.rate by correspondence "
-         "on charts of all five games, file-level fields and write->read checked per run.",
-    note="Trusted: Coq kernel+VM, harness; binary64 exact on the exact stream by construction, measured (1e-9) on the rounded stream; "
-         "reamber's readers used for the write->read part.",
-    technique="Coq proof (composition of stacker refinement) + vm_compute correspondence",
+    text="Coq proofs, for every chart / mapset and every rate: (1) Map.rate - modelled as the three edits through the stacker - is uniform scaling "
+         "(rate_lists = rate_spec, by composing the C12 stacker theorems), keeps columns / row counts / other cells, is the identity at 1 and composes; "
+         "(2) file level (Map/RateFile.v): OsuMap.rate divides every sample event's time by r, keeps the preview marker -1 and divides any other preview value, keeps every other attribute, "
+         "SMMapSet.rate divides offset (when set), sample start and sample length and rates every chart, MapSet.rate rates each chart on its own; "
+         "identity and composition for those too (osu composition under the exact guard preview = -1 or preview <> -a: a negative preview time -a lands on "
+         "the marker, refuted without it, replayed on the code); a chart without a preview point has none afterwards (the defect of the OLD model, "
+         "-1 -> -0.5 -> 'PreviewTime: 0', stays stated as C13_OLD_osu_preview_unset_refuted; repaired by 09d92a7); (3) write survival over the format models: Quaver whole "
+         "document for every chart of C06's writer domain (denote(write(rate r c)) = rated timeline, every time within < 1 ms of t/r, bpm*r exactly, "
+         "counts/lanes/key sounds kept), StepMania and BMS by composition with C03's / C05's whole-file writer theorems for every rated chart in "
+         "their decidable domains (objects at exactly t/r resp. within 1/192 beat and exact on the grid, tempo at t/r with bpm*r), osu against C01's "
+         "write oracle (_partial: C01 has no whole-file writer theorem yet); the format-level rate functions are proved equal to the stacker model "
+         "under explicit embeddings. Tied to Map.rate/MapSet.rate/OsuMap.rate/SMMapSet.rate by in-Coq correspondence on charts of all five games "
+         "(model output = implementation output, original untouched, file-level fields included).",
+    note="Trusted: Coq kernel+VM, harness; binary64 exact on the exact stream by construction, measured (1e-9) on the rounded stream. Open: osu "
+         "whole-file writer theorem (C01), closure of the StepMania / BMS writer domains under rate (hypothesis on the rated chart), C03's theorem "
+         "does not state the written tempo list. Fixed findings: SM offset unscaled (0398fe5), osu preview marker scaled (09d92a7).",
+    technique="Coq proof (composition of stacker refinement; composition with the formats' writer theorems) + vm_compute correspondence",
     design="4/C13")
 
 EXACT = [0.25, 0.5, 1.0, 2.0, 4.0, 8.0]
@@ -253,9 +272,6 @@ def bucket(case, out):
 def classify(case, out, kind, sub=None):
     if sub is not None and kind == "spec":
         chk = out["checks"][sub]
-        if chk["t"] == "preview" and F.frac_from_json(chk["before"]) == -1 and F.frac_from_json(chk["after"]) != -1:
-            # osu's "no preview point" marker divided like a time (uniform scaling holds: only the strict reading fails)
-            return "osu-rate-preview-unset-marker-scaled"
         if chk["t"] == "sm":
             s, o, a = chk["src"], chk["out"], chk["after"]
             rest_ok = (all(a[k] == s[k] for k in ("offset", "start", "length", "meta")) and o["meta"] == s["meta"]
